@@ -214,11 +214,16 @@ def lines_agree(c, x, mc, mx):
     for i, (a, b) in enumerate(zip(tc, tx)):
         if a == b:
             continue
-        if len(tmc) == len(tc) and tmc[i] == "?":
-            continue
-        if len(tmx) == len(tx) and tmx[i] == "?":
-            continue
-        return False
+        # a difference is legitimate only where the two DESCRIPTIONS differ (a default-constructed value: the C table's
+        # create / default_value token vs the C++ type's constructor, or indeterminate on one side) and each interface shows
+        # what its own description says
+        if len(tmc) != len(tc) or len(tmx) != len(tx):
+            return False
+        ok_c = tmc[i] == "?" or a == tmc[i]
+        ok_x = tmx[i] == "?" or b == tmx[i]
+        explained = tmc[i] == "?" or tmx[i] == "?" or tmc[i] != tmx[i]
+        if not (ok_c and ok_x and explained):
+            return False
     return True
 
 
